@@ -5,11 +5,13 @@ From PS Require Import Base LangDefs CTieBase CTieLang.
 From PS.Gen Require CFuns CApi.
 Local Open Scope Z_scope.
 
+(* the comparer a code denotes: the bsearch adapter of that number AS TRANSLATED (which comparer it calls, with
+   which of its two dereferenced arguments in which position, and the prefix length it passes are read from lang.c) *)
 Definition cmp_by_code (code : Z) (fuel : nat) (sgn : bool) (key elm : list Z) : option Z :=
-  if code =? 0 then CFuns.compare_str fuel sgn key elm
-  else if code =? 1 then CFuns.compare_prefix fuel sgn key elm CFuns.compare_prefix_wrap_n
-  else if code =? 2 then CFuns.compare_str_noaccent fuel sgn key elm
-  else CFuns.compare_prefix_noaccent fuel sgn key elm CFuns.compare_prefix_noaccent_wrap_n.
+  if code =? 0 then CFuns.compare_str_wrap fuel sgn key elm
+  else if code =? 1 then CFuns.compare_prefix_wrap fuel sgn key elm
+  else if code =? 2 then CFuns.compare_str_noaccent_wrap fuel sgn key elm
+  else CFuns.compare_prefix_noaccent_wrap fuel sgn key elm.
 
 Definition flag (b : bool) : Z -> Z := fun _ => if b then 1 else 0.
 
@@ -19,6 +21,7 @@ Theorem tie_get_comparer sgn L (li : Z) key elm fuel : no_nul key ->
   = Some (comparer sgn L key elm).
 Proof.
   intros Hk Hf He. rewrite <- (tie_comparer sgn L key elm fuel Hk Hf He).
-  unfold CApi.get_comparer, c_comparer, cmp_by_code, flag.
+  unfold CApi.get_comparer, c_comparer, cmp_by_code, flag,
+    CFuns.compare_str_wrap, CFuns.compare_prefix_wrap, CFuns.compare_str_noaccent_wrap, CFuns.compare_prefix_noaccent_wrap.
   destruct (l_has_prefix L), (l_has_accents L); reflexivity.
 Qed.
